@@ -3,7 +3,9 @@
  *
  *   c15_proc hist <cycle>,<cycle>,...
  *       cycle = <how><n>[m][x][+<mod>]...    mod = S<bytes> | C<0/1> | B<int>  (attribute setters: stack size, child first,
- *                 bind workers)  |  e<K>=<hex> | e<K>-  (setenv / unsetenv before this cycle; K = N S C B L W for
+ *                 bind workers)  |  R[w]i | R[w]a<n>[s<bytes>][c<v>][b<v>]  (redundant myth_init() / myth_init_ex(&attr) with
+ *                 different settings INSIDE the epoch, from main or [w] from a thread on another worker; an `again` line
+ *                 repeats the observations afterwards)  |  e<K>=<hex> | e<K>-  (setenv / unsetenv before this cycle; K = N S C B L W for
  *                 MYTH_NUM_WORKERS, _DEF_STKSIZE, _CHILD_FIRST, _BIND_WORKERS, _CPU_LIST, _WORKER_NUM)
  *         how: a = own attribute object: globalattr_init, set_n_workers(n), myth_init_ex(&a)
  *              g = myth_globalattr_set_n_workers(NULL, n) then myth_init()
@@ -128,6 +130,65 @@ static void env_mod(const char * m) {   /* e<K>=<hex>  |  e<K>-   with K in N S 
   }
 }
 
+/* redundant initialisation inside an epoch:  i = myth_init();  a<n>[s<bytes>][c<v>][b<v>] = myth_init_ex(&attr) with
+   a fresh attribute object carrying these (different) settings */
+static int redundant_call(const char * m) {
+  myth_globalattr_t a; const char * q;
+  if (m[0] == 'i') return myth_init();
+  myth_globalattr_init(&a);
+  myth_globalattr_set_n_workers(&a, (size_t)atoi(m + 1));
+  if ((q = strchr(m, 's'))) myth_globalattr_set_stacksize(&a, (size_t)atol(q + 1));
+  if ((q = strchr(m, 'c'))) myth_globalattr_set_child_first(&a, atoi(q + 1));
+  if ((q = strchr(m, 'b'))) myth_globalattr_set_bind_workers(&a, atoi(q + 1));
+  return myth_init_ex(&a);
+}
+static const char * g_rmod; static volatile int g_rret, g_rrank;
+static void * ra(void * x) {          /* like fa: runs on another worker once its child occupies the first one */
+  (void)x;
+  myth_thread_t b = myth_create(fb, NULL);
+  g_rrank = myth_get_worker_num();
+  g_rret = redundant_call(g_rmod);
+  a_rank = g_rrank;
+  myth_join(b, NULL);
+  return NULL;
+}
+
+/* everything that is observed of a running epoch */
+static void observe(void) {
+  int i, j, nw = myth_get_num_workers();
+  printf(" nw=%d tasks=%d main=%d", nw, count_tasks_expect(nw), myth_get_worker_num());
+  fflush(stdout);       /* if the check-in below never completes, this much is still reported */
+  {
+    myth_thread_t sp; long mind = -1;
+    g_n = nw; g_seen_cnt = 0; g_dup = 0; g_badrank = -1; g_timedout = 0; g_deadline = now_s() + 25.0;
+    for (i = 0; i < MAXW; i++) { g_rank_tid[i] = 0; g_top[i] = 0; }
+    sp = myth_create(spawner, NULL);
+    myth_join(sp, NULL);
+    for (i = 0; i < nw && i < MAXW; i++) for (j = i + 1; j < nw && j < MAXW; j++) if (g_top[i] && g_top[j]) {
+      long d = (long)(g_top[i] > g_top[j] ? g_top[i] - g_top[j] : g_top[j] - g_top[i]);
+      if (mind < 0 || d < mind) mind = d;
+    }
+    printf(" seen=%d dup=%d badrank=%d timedout=%d mindist=%ld", g_seen_cnt, g_dup, g_badrank, g_timedout, mind);
+  }
+  {
+    size_t stk = 0, gnw = 0; int bw = -9, cf = -9, cfobs = -1; myth_thread_attr_t ta;
+    myth_globalattr_get_stacksize(NULL, &stk);
+    myth_globalattr_get_bind_workers(NULL, &bw);
+    myth_globalattr_get_child_first(NULL, &cf);
+    myth_globalattr_get_n_workers(NULL, &gnw);
+    myth_thread_attr_init(&ta);
+    if (nw == 1) {       /* one worker: the order of parent and child is fixed by child_first alone */
+      myth_thread_t t = 0;
+      cf_flag = 0;
+      myth_create_ex(&t, &ta, setflag, NULL);
+      cfobs = cf_flag;
+      myth_join(t, NULL);
+    }
+    printf(" stk=%zu bind=%d cf=%d tastk=%zu tacf=%d cfobs=%d gnw=%zu aff=", stk, bw, cf, ta.stacksize, ta.child_first, cfobs, gnw);
+    for (i = 0; i < nw && i < MAXW; i++) if (g_rank_tid[i]) printf("%d:%d:%d;", i, g_affn[i], g_aff0[i]);
+  }
+}
+
 static int do_hist(char * spec) {
   int k = 0; char * c, * save1 = NULL;
   for (c = strtok_r(spec, ",", &save1); c; c = strtok_r(NULL, ",", &save1), k++) {
@@ -135,7 +196,7 @@ static int do_hist(char * spec) {
     for (q = strtok_r(c, "+", &save2); q && np < 32; q = strtok_r(NULL, "+", &save2)) parts[np++] = q;
     char how = parts[0][0]; int n = atoi(parts[0] + 1);
     int mig = strchr(parts[0], 'm') != NULL, nofini = strchr(parts[0], 'x') != NULL;
-    int ret = -9, i, j, nw, mr = -1;
+    int ret = -9, i, j, nw, nred = 0;
     myth_globalattr_t a; myth_globalattr_t * ap = (how == 'a') ? &a : NULL;
     char pre[8192]; int pl = 0;
     for (j = 1; j < np; j++) if (parts[j][0] == 'e') env_mod(parts[j]);
@@ -149,48 +210,43 @@ static int do_hist(char * spec) {
       if (parts[j][0] == 'S') myth_globalattr_set_stacksize(ap, (size_t)atol(parts[j] + 1));
       else if (parts[j][0] == 'C') myth_globalattr_set_child_first(ap, atoi(parts[j] + 1));
       else if (parts[j][0] == 'B') myth_globalattr_set_bind_workers(ap, atoi(parts[j] + 1));
+      else if (parts[j][0] == 'R') nred++;
     }
     if (how == 'a') ret = myth_init_ex(&a);
     else if (how == 'g' || how == 'i') ret = myth_init();
+    printf("cycle %d pre=%s ret=%d", k, pre, ret);
+    observe();
     nw = myth_get_num_workers();
-    printf("cycle %d pre=%s ret=%d nw=%d tasks=%d main=%d", k, pre, ret, nw, count_tasks_expect(nw), myth_get_worker_num());
-    {
-      myth_thread_t sp; long mind = -1;
-      g_n = nw; g_seen_cnt = 0; g_dup = 0; g_badrank = -1; g_timedout = 0; g_deadline = now_s() + 25.0;
-      for (i = 0; i < MAXW; i++) { g_rank_tid[i] = 0; g_top[i] = 0; }
-      sp = myth_create(spawner, NULL);
-      myth_join(sp, NULL);
-      for (i = 0; i < nw && i < MAXW; i++) for (j = i + 1; j < nw && j < MAXW; j++) if (g_top[i] && g_top[j]) {
-        long d = (long)(g_top[i] > g_top[j] ? g_top[i] - g_top[j] : g_top[j] - g_top[i]);
-        if (mind < 0 || d < mind) mind = d;
-      }
-      printf(" seen=%d dup=%d badrank=%d timedout=%d mindist=%ld", g_seen_cnt, g_dup, g_badrank, g_timedout, mind);
-    }
-    {
-      size_t stk = 0; int bw = -9, cf = -9, cfobs = -1; myth_thread_attr_t ta;
-      myth_globalattr_get_stacksize(NULL, &stk);
-      myth_globalattr_get_bind_workers(NULL, &bw);
-      myth_globalattr_get_child_first(NULL, &cf);
-      myth_thread_attr_init(&ta);
-      if (nw == 1) {       /* one worker: the order of parent and child is fixed by child_first alone */
-        myth_thread_t t = 0;
-        cf_flag = 0;
-        myth_create_ex(&t, &ta, setflag, NULL);
-        cfobs = cf_flag;
-        myth_join(t, NULL);
-      }
-      printf(" stk=%zu bind=%d cf=%d tastk=%zu tacf=%d cfobs=%d aff=", stk, bw, cf, ta.stacksize, ta.child_first, cfobs);
-      for (i = 0; i < nw && i < MAXW; i++) if (g_rank_tid[i]) printf("%d:%d:%d;", i, g_affn[i], g_aff0[i]);
-    }
     if (mig && nw >= 2) {
       a_rank = -1; main_joining = 0;
       myth_thread_t ta = myth_create(fa, NULL);
       main_joining = 1;
       myth_join(ta, NULL);
     }
-    mr = myth_get_worker_num();
-    printf(" mig=%d\n", mr);
+    printf(" mig=%d\n", myth_get_worker_num());
     fflush(stdout);
+    if (nred) {           /* redundant initialisation calls inside the epoch: must change nothing */
+      char rets[256] = "", on[256] = ""; int rl = 0, ol = 0;
+      for (j = 1; j < np; j++) if (parts[j][0] == 'R') {
+        const char * m = parts[j] + 1; int r, rk;
+        if (m[0] == 'w' && myth_get_num_workers() >= 2 && nw >= 2) {
+          myth_thread_t t;
+          g_rmod = m + 1; a_rank = -1; g_rret = -9; g_rrank = -9;
+          t = myth_create(ra, NULL);
+          myth_join(t, NULL);
+          r = g_rret; rk = g_rrank;
+        } else {
+          rk = myth_get_worker_num();
+          r = redundant_call(m[0] == 'w' ? m + 1 : m);
+        }
+        rl += snprintf(rets + rl, sizeof rets - rl, "%s%d", rl ? "," : "", r);
+        ol += snprintf(on + ol, sizeof on - ol, "%s%d", ol ? "," : "", rk);
+      }
+      printf("again %d rets=%s on=%s", k, rets, on);
+      observe();
+      printf("\n");
+      fflush(stdout);
+    }
     if (!nofini) {
       myth_fini();
       printf("fini %d state=%d tasks=%d\n", k, g_myth_init_state, count_tasks_expect(1));
